@@ -142,14 +142,17 @@ macro_rules! atomic {
         fn $name() {
             let mut mem = Aligned::<N>::any();
             let gb = mem.base();
+            // the container itself starts at any address modulo 8: what must be aligned is the ADDRESS, not the offset
+            let wo: usize = kani::any();
+            kani::assume(wo <= N);
             let go: usize = kani::any();
             const SZ: usize = size_of::<$T>();
             let do_store: bool = kani::any();
             let val: $T = kani::any();
-            let fits = go as u128 + SZ as u128 <= N as u128;
+            let fits = go as u128 + SZ as u128 <= (N - wo) as u128;
             let ok;
             {
-                let s = VolatileSlice::from(&mut mem.0[..]);
+                let s = VolatileSlice::from(&mut mem.0[wo..]);
                 if do_store {
                     let r = s.store(val, go, Ordering::SeqCst);
                     ok = r.is_ok();
@@ -161,19 +164,19 @@ macro_rules! atomic {
                 }
             }
             // refuses misaligned / out-of-range addresses, otherwise exactly one atomic access of the full width
-            assert!(ok == (fits && (gb + go) % SZ == 0));
+            assert!(ok == (fits && (gb + wo + go) % SZ == 0));
             if ok {
                 assert!(count() == 1);
                 let k = if do_store { 3 } else { 2 };
                 assert!(count_kind(k) == 1);
                 let a = at_kind(k, 0);
-                assert!(a.addr == gb + go && a.width == SZ);
+                assert!(a.addr == gb + wo + go && a.width == SZ);
             } else {
                 assert!(count() == 0);
             }
             kani::cover!(ok && do_store);
-            kani::cover!(ok && !do_store && go > 0);
-            kani::cover!(SZ == 1 || (!ok && fits));
+            kani::cover!(ok && !do_store && go > 0 && wo % SZ != 0);
+            kani::cover!(SZ == 1 || (!ok && fits && go % SZ == 0));
         }
     };
 }
